@@ -112,9 +112,65 @@ class Run:
         self.undecided = 0
         self.grew = 0
         self.submitted = {}
+        self.after_bad = None
+        self.stat = {}
 
     def F_(self, prop, kind, what):
+        if "C11" in self.props:
+            if prop == "C11":
+                return Failure(kind, f"[C11] {what}")
+            if self.after_bad:
+                return Failure(kind, f"[C11] after a rejected call ({self.after_bad}) the remaining valid history no "
+                               f"longer behaves as if that call had never happened: {what}")
+            return None
         return Failure(kind, f"[{prop}] {what}") if prop in self.props else None
+
+    def snapshot(self):
+        o = self.obs()
+        o.pop("bad")
+        # `capacity` is deliberately not part of the C11 snapshot: ProximityArchive.add grows the store before the
+        # store validates the field set, so a rejected call may leave the capacity doubled; C11 lists contents,
+        # thresholds, statistics and best elite (DESIGN section 3, observed, not claimed)
+        try:
+            o["bounds"] = ([float(x) for x in self.a.lower_bounds], [float(x) for x in self.a.upper_bounds])
+        except RuntimeError:
+            o["bounds"] = None
+        return o
+
+    def make_sched(self, entry, n):
+        from ribs.emitters import GaussianEmitter
+        from ribs.schedulers import BanditScheduler, Scheduler
+        em = [GaussianEmitter(self.a, sigma=0.5, x0=np.zeros(self.case["sol_dim"]), batch_size=n, seed=1)]
+        return Scheduler(self.a, em) if entry == "sched_tell" else BanditScheduler(self.a, em, num_active=1)
+
+    def do_bad(self, op, where):
+        import faultlib
+        if op["entry"] in ("retrieve", "retrieve_single", "index_of", "index_of_single") and len(self.a) == 0:
+            return None   # documented RuntimeError on an empty ProximityArchive
+        if op["arg"] == "objective" and op["kind"] == "none" and not self.case["lc"]:
+            return None   # diversity optimisation: objective None is valid without local competition
+        pre = self.snapshot()
+        cap_before = int(self.a.capacity)
+        res, exc = faultlib.inject(self.a, op, self.dt, self.case["sol_dim"], self.case["nd"], self.case["layout"],
+                                   sched=self.make_sched)
+        self.stat[f"bad:{op['entry']}:{op['arg']}:{op['kind']}:{res}"] = 1
+        if res == "skip":
+            return None
+        desc = f"{op['entry']}({op['arg']}: {op['kind']} at row {op['pos']} of {len(op['rows'])})"
+        post = self.snapshot()
+        if res == "accepted":
+            if post != pre:
+                return self.F_("C11", "oracle", f"{where}: malformed call {desc} was accepted without an error and "
+                               f"changed the archive: {[k for k in pre if pre[k] != post[k]]}")
+            return None
+        if post != pre:
+            return self.F_("C11", "oracle", f"{where}: {desc} raised {exc} but changed the archive: "
+                           f"{[k for k in pre if pre[k] != post[k]]}")
+        if int(self.a.capacity) != cap_before:
+            self.stat["bad:capacity-grew-on-rejected-call"] = self.stat.get("bad:capacity-grew-on-rejected-call", 0) + 1
+            self.drv.ask(f"setcap {int(self.a.capacity)}")
+        self.after_bad = desc
+        return None
 
     def obs(self):
         return archlib.observe(self.a, obs_case(self.case))
@@ -372,6 +428,8 @@ class Run:
                         self.compare(post, int(self.a.capacity), where)
                 elif op["op"] == "bounds":
                     f = self.bounds_check(self.obs(), where)
+                elif op["op"] == "bad":
+                    f = self.do_bad(op, where)
                 if f is not None:
                     return f
             return None
